@@ -75,6 +75,10 @@ class KrausChannel(raw_types.Gate):
             return False
         return np.allclose(np.asarray(self._kraus_ops), np.asarray(other._kraus_ops))
 
+    def __hash__(self) -> int:
+        # Equality is approximate in the operators, so only the exactly compared parts are hashed.
+        return hash((KrausChannel, self._key, np.shape(self._kraus_ops)))
+
     def num_qubits(self) -> int:
         return self._num_qubits
 
